@@ -1,9 +1,104 @@
-(* C11: basic route rules follow the documented precedence.  Property theorems only. *)
+(* C11: basic route rules follow the documented precedence.  Property theorems only.
+   Model: model/BasicRoute.v (basic_rule_tree.go: hostTrees/pathTrees over radix trees; route_table_load.go checks).
+   `load_rules rules` is convertBasicRule for one product (None = the loader rejects the rule set: a host or path
+   fails checkHostInBasicRule/checkPathInBasicRule, an empty rule, or a duplicate path key within one host key).
+   `doc_route rules host path` is the documented choice (docs/zh_cn/introduction/route.md, "basic rule matching
+   order") computed from the flat rule list, without trees and without string reversal:
+     host class = the rules whose exact host equals the request host (case-insensitive, one trailing dot ignored);
+                  if there is none, the rules "*.suffix" with  host = label ++ suffix  for ONE dot-free label;
+                  if there is none, the any-host rules ("*" or no host);   classes are never mixed;
+     inside the class = the rule whose exact path equals the request path; else the prefix rule "P*" with the
+                  longest key (P + "/") that is a prefix of the request path + "/"; the any-path rule "*" has the
+                  empty key and is therefore last. *)
 From Coq Require Import List ZArith Bool.
-From Bfe Require Import lib.Val lib.Bytes model.BasicRoute run.RunC11.
+From Bfe Require Import lib.Val lib.ValProofs lib.Bytes model.BasicRoute proofs.BasicRouteProofs run.RunC11.
 Import ListNotations.
 Open Scope Z_scope.
 
-Example C11_placeholder : kf_C11 (VL []) = 0.
-Proof. exact eq_refl. Qed.
-Print Assumptions C11_placeholder.
+(* HEADLINE.  For every rule set the loader accepts and every request host/path, BasicRouteRuleTree.Get on the
+   tree built by Insert returns exactly the documented choice. *)
+Theorem C11_get_refines_doc : forall rules t host path,
+  load_rules rules = Some t -> tree_get t host path = doc_route rules host path.
+Proof. exact get_refines_doc. Qed.
+Print Assumptions C11_get_refines_doc.
+
+(* No fallback to another host class: the first non-empty class (exact, single-label wildcard, any-host) decides,
+   even when no path rule inside it matches (the lookup then misses and the advanced rules take over). *)
+Theorem C11_no_cross_class_fallback : forall rules t host path,
+  load_rules rules = Some t ->
+  let ents := entries_of rules in
+  let H := nh host in
+  (filter (host_exact H) ents <> [] ->
+     tree_get t host path = path_select (filter (host_exact H) ents) path) /\
+  (filter (host_exact H) ents = [] -> filter (host_wild H) ents <> [] ->
+     tree_get t host path = path_select (filter (host_wild H) ents) path) /\
+  (filter (host_exact H) ents = [] -> filter (host_wild H) ents = [] ->
+     tree_get t host path = path_select (filter host_any ents) path).
+Proof. exact no_cross_class_fallback. Qed.
+Print Assumptions C11_no_cross_class_fallback.
+
+(* A wildcard host matches exactly one label: host_wild holds iff the normalised request host is
+   label ++ suffix with a dot-free label ("*.a.com" matches "b.a.com", not "c.b.a.com", not "a.com"). *)
+Theorem C11_wildcard_single_label : forall S H,
+  one_label_before S H = true <-> exists L, H = L ++ S /\ has_dot L = false.
+Proof. exact one_label_iff. Qed.
+Print Assumptions C11_wildcard_single_label.
+
+(* The prefix rule chosen is a longest one. *)
+Theorem C11_longest_path_elements : forall l,
+  match longest_entry l with
+  | Some e => In e l /\ forall e', In e' l -> (length (pkey (e_path e')) <= length (pkey (e_path e)))%nat
+  | None => l = []
+  end.
+Proof. exact longest_entry_spec. Qed.
+Print Assumptions C11_longest_path_elements.
+
+(* Prefix rules match whole path elements: the key is empty (any path) or ends with "/", and is a prefix of the
+   request path with "/" appended when missing; hence "/foo*" matches "/foo", "/foo/" and "/foo/bar", not "/foobar". *)
+Theorem C11_prefix_on_elements : forall path e,
+  path_prefix path e = true ->
+  (exists rest, slash_end path = pkey (e_path e) ++ rest) /\
+  (pkey (e_path e) = [] \/ exists k0, pkey (e_path e) = k0 ++ [SLASH]).
+Proof. exact path_prefix_elements. Qed.
+Print Assumptions C11_prefix_on_elements.
+
+(* The executable property evaluated by the harness holds of the model on every well-formed input. *)
+Theorem C11_prop_of_model : forall i, dec_C11 i <> None -> prop_C11 i (run_C11 i) = true.
+Proof. exact prop_C11_of_model. Qed.
+Print Assumptions C11_prop_of_model.
+
+(* Tests (vm_compute): every row of the host and path tables of route.md and its two worked examples, through
+   the loader and the tree; also non-vacuity of the theorems above (accepted rule sets, hits in all classes). *)
+From Coq Require Import String.
+Local Open Scope string_scope.
+Example C11_doc_host_table :
+  via_tree (one "*" "/") "www.test1.com" "/" = hit /\
+  via_tree (one "" "/") "www.test1.com" "/" = hit /\
+  via_tree (one "*.test1.com" "") "host.test1.com" "/x" = hit /\
+  via_tree (one "*.test1.com" "") "vip.host.test1.com" "/x" = miss /\
+  via_tree (one "*.test1.com" "") "example.com" "/x" = miss /\
+  via_tree (one "*.test1.com" "") "test1.com" "/x" = miss.
+Proof. exact doc_host_table. Qed.
+Example C11_doc_path_table :
+  via_tree (one "h" "*") "h" "" = hit /\ via_tree (one "h" "") "h" "" = hit /\
+  via_tree (one "h" "*") "h" "/" = hit /\ via_tree (one "h" "*") "h" "/a/b" = hit /\
+  via_tree (one "h" "/") "h" "" = miss /\ via_tree (one "h" "/") "h" "/" = hit /\ via_tree (one "h" "/") "h" "/a" = miss /\
+  via_tree (one "h" "/*") "h" "" = miss /\ via_tree (one "h" "/*") "h" "/" = hit /\ via_tree (one "h" "/*") "h" "/a" = hit /\
+  via_tree (one "h" "/*") "h" "/a/b" = hit /\ via_tree (one "h" "/*") "h" "/a/" = hit /\
+  via_tree (one "h" "/a/b/*") "h" "/a/b/c" = hit /\ via_tree (one "h" "/a/b/*") "h" "/a/b/c/d" = hit /\
+  via_tree (one "h" "/a/b/*") "h" "/a/b" = hit /\ via_tree (one "h" "/a/b/*") "h" "/a/c" = miss /\
+  via_tree (one "h" "/a/b/*") "h" "/a/" = miss.
+Proof. exact doc_path_table. Qed.
+Example C11_doc_examples :
+  via_tree doc_rules4 "vip.b.test1.com" "/interface/d" = Some (Some (b "PhpCluster")) /\
+  via_tree doc_rules4 "vip.b.test1.com" "/other" = Some (Some (b "StaticCluster2")) /\
+  via_tree doc_rules4 "www.test1.com" "/other" = Some None /\
+  via_tree doc_rules4 "WWW.Test1.com." "/interface/d" = Some (Some (b "PhpCluster4")) /\
+  via_tree doc_demo "www.a.com" "/a/b" = Some (Some (b "Demo-B")) /\
+  via_tree doc_demo "www.a.com" "/a/b/c" = Some (Some (b "Demo-A")) /\
+  via_tree doc_demo "www.a.com" "/ab" = Some None /\
+  via_tree doc_demo "x.a.com" "/ab" = Some (Some (b "Demo-C")) /\
+  via_tree doc_demo "www.c.com" "/" = Some (Some (b "ADVANCED_MODE")) /\
+  via_tree doc_demo "www.d.com" "/" = Some None /\
+  load_rules [mkRule [b "h"] [b "/foo*"; b "/foo/*"] (b "C")] = None.
+Proof. exact doc_examples. Qed.
